@@ -193,6 +193,13 @@ pub const INPUTS: &[&str] = &[
     "\"a &lt;b&gt; &amp; &quot;q&quot; <i> x%20y%2Fz aGVsbG8= ON2WG2DFON2A====\"",
     // an object with enough keys for the order after a deletion to be visible
     "{\"a\": 1, \"b\": [2, {\"c\": 3, \"d\": 4, \"e\": 5}], \"c\": \"x\", \"d\": null, \"e\": {\"f\": 1}}",
+    // collections with a valid prefix and an invalid tail: a filter that folds over the elements
+    // fails part-way, and what the failed run leaves behind (a scratch buffer, a half-built
+    // result) must not reach the next run on that thread. They come last, so that the oracle
+    // process of a program has run nothing that failed part-way before its other inputs.
+    "[67, 68]",
+    "[65, 66, 1114112]",
+    "[\"a\", \"b\", 1, null, [2]]",
 ];
 
 #[derive(Serialize, Deserialize, Clone, Debug)]
